@@ -29,3 +29,11 @@ func VerifC18_Segment_LZ4() {
 	n := nd.Concurrently(verifC18Work(c, nd.Bytes("p1", 20)), verifC18Work(c, nd.Bytes("p2", 20)))
 	nd.Assert(n == 0, "concurrent segment codec calls with LZ4 write no shared or package-level memory")
 }
+
+// payloads that compress by more than 2:1 take the decompressor's retry loop (larger and larger buffers)
+func VerifC18_Segment_LZ4_HighRatio() {
+	nd.CompressPolicy(1)
+	c := NewCodecWithCompression(lz4.Compressor{})
+	n := nd.Concurrently(verifC18Work(c, nd.Bytes("p1", 300)), verifC18Work(c, nd.Bytes("p2", 400)))
+	nd.Assert(n == 0, "concurrent segment codec calls with LZ4 write no shared or package-level memory and keep no memory they released")
+}
